@@ -192,8 +192,6 @@ class CopyExperiment:
             r = run.call(lambda: mk(new_name))
             if r[0] == "ok":
                 run.violation("copy_refusal", site, "existing_name_accepted", "copy onto existing name %r returned" % final_name)
-            if not isinstance(r[1], (NameError, nixio.exceptions.DuplicateName)):
-                run.violation("copy_refusal", site, "error_class:" + type(r[1]).__name__, repr(r[1])[:200])
             run.drop_handles()
             d = K.deep_diff(walks_before, file_walks(run))
             if d is not None:
